@@ -177,3 +177,10 @@ package buffer
 //@   ensures layoutSafe(layout) ==> allSafe(bapp(b))
 //@   ensures elems_frame(type(uint8), b.bs)
 //@   ensures arr(b.bs) == old(arr(b.bs)) || fresh(b.bs)
+
+// New function of a buffer pool (C08): an empty buffer with its own backing array.
+//@ func buffer.NewPool$1
+//@   props C08
+//@   flags nopanic
+//@   modifies nothing
+//@   ensures fresh(result) && len(result.bs) == 0 && fresh(result.bs)
